@@ -34,7 +34,7 @@ MANIFEST = {
              "element kinds, unknown element/attribute, missing required attribute, guideline shape and angle range, malformed number, non-dictionary lib), "
              "returned_glyph_wellformed for every event list, attribute-order independence for all nine attribute loops and for whole documents, the format-1 anchor "
              "upgrade, legal_accepted for a generative grammar of format-2 documents (any item order, comments anywhere, any attribute order, any spelling that reads "
-             "back), and the element-level link from the table-driven specification (a Spec.elemCheck-clean self-closing element is accepted in any state at its level). "
+             "back), legal_accepted_v1 for its format-1 part, and the link from the table-driven specification: judge_clean_accepted (Spec.judge rd d = ([], false) for a document of the shape the tokeniser delivers gives parseGlif rd (Spec.flatten d) = .ok _, formats 1 and 2, under ReadsNumerals) and, for a fragment of the converse, judge_hard_error_rejected (clean items up to a position, then an unknown element, a format-2-only element in format 1, an unknown attribute on a body element or a lib that is not a dictionary: rejected). "
              "SOURCE-LEVEL TIE: tools/extract_glif_parser.py re-reads src/glyph/parse.rs on every run (attribute names per loop, required attributes and guideline "
              "shapes, element dispatch per level, format-1 refusals, once-only guards, defaults, level error variants, comment skipping); nine audited source_* theorems "
              "state that these tables are the model's (each model table is proved, for all strings, to characterise its function) and the specification's. "
